@@ -18,8 +18,11 @@ LEVEL = "exploration"
 RULE = (
     "Hypothesis RuleBasedStateMachine per configuration (budget 1..5 x {generic, NV hardware} x {no compiler, NV transpiler}); "
     "rules: new qubit, 1-/2-qubit gate, reset, in-place measure, destructive measure (Z, X/Y bases, rotated bases), free, create_keep/recv_keep (k pairs, plain and "
-    "sequential with post routine), create_context/recv_context, flush; allocating rules are enabled only within the budget "
-    "(budget-1 on single-communication-qubit hardware).  Non-trivial = history with >=1 id reuse after release, an NV "
+    "sequential with post routine, sequential single pair without one, Bell states per pair, the min-fidelity retry option), create_context/recv_context, "
+    "17 register-stored measurements in one subroutine (the one that does not fit must be rejected without side effects), a local qubit that lives and dies "
+    "in id 0 before pairs arrive there, flush; NV also selected by the compiler argument alone; allocating rules are enabled only within the budget "
+    "(budget-1 on single-communication-qubit hardware).  While the findings about leftover handles of sequential/context requests are open, such a request, "
+    "its flush and the release of exactly those handles form one step (counted under excluded_by_known_finding); everything else about it is checked.  Non-trivial = history with >=1 id reuse after release, an NV "
     "relocation, or an EPR keep with another qubit alive; distinct by history hash"
 )
 ASSUMPTIONS = [
@@ -181,6 +184,44 @@ class HistoryRunner:
                 with ctxf(number=n) as (q, pair):
                     q.measure(future=self.out_arr.get_future_index(pair))
                 self.stack.expect(role, "K", n)
+            elif k in ("seq_atomic", "ctx_atomic"):
+                # while the findings about leftover handles are open: the request, its execution, and then the release of exactly
+                # the handles that the finding says are left behind (through the public `active` setter) form one step
+                _, role, n, bells = op
+                if self.handles:
+                    self.info["epr_with_other"] = True
+                if self.out_arr is None:
+                    self.out_arr = self.conn.new_array(8)
+                arr = self.out_arr
+                if k == "seq_atomic":
+
+                    def post(c, q, pair):
+                        q.measure(future=arr.get_future_index(pair))
+
+                    (self.sock.create_keep if role == "create" else self.sock.recv_keep)(number=n, sequential=True, post_routine=post)
+                else:
+                    ctxf = self.sock.create_context if role == "create" else self.sock.recv_context
+                    with ctxf(number=n) as (q, pair):
+                        q.measure(future=arr.get_future_index(pair))
+                self.stack.expect(role, "K", n, [{"bell_state": b} for b in bells])
+                self.flush(tolerate_leftover=True)
+            elif k == "meas_overflow":
+                # more register-stored outcomes than there are M registers in one subroutine: the call that does not fit is
+                # rejected by the SDK and must leave everything as it was
+                q = self._pick(op[1])
+                got = []
+                rejected = False
+                for i in range(17):
+                    try:
+                        got.append(q.measure(inplace=(i < 16), store_array=False))
+                    except RuntimeError:
+                        rejected = True
+                        break
+                if not rejected:
+                    self.handles.remove(q)
+                    self.dead.append(q)
+                self.info["overflow"] = True
+                self.flush()
             elif k == "flush":
                 self.flush()
             else:
@@ -196,7 +237,7 @@ class HistoryRunner:
             raise Failure(f"sdk-raises:{k}:{type(e).__name__}:{fr.name}:{self.config['hardware']}", self.case(), f"in-budget operation {op} raised {type(e).__name__}: {(str(e).splitlines() or [''])[0][:160]} (in {fr.name})")
         return ""
 
-    def flush(self):
+    def flush(self, tolerate_leftover=False):
         from vlib import sim
 
         self.info["flushes"] += 1
@@ -213,6 +254,10 @@ class HistoryRunner:
         app = self.conn.app_id
         um = self.ex._qubit_unit_modules[app]
         allocated = {i for i, p in enumerate(um) if p is not None}
+        if tolerate_leftover:
+            mine_ids = {id(q) for q in self.handles}
+            for q in [q for q in self.conn.active_qubits if id(q) not in mine_ids]:
+                q.active = False
         active = {q.qubit_id for q in self.conn.active_qubits}
         if active != allocated:
             raise Failure(f"active-vs-allocated:{self.config['hardware']}:{self.config['compiler']}", self.case(), f"after flush: connection.active_qubits has virtual ids {sorted(active)}, controller has allocated {sorted(allocated)}")
@@ -287,8 +332,11 @@ def make_machine(ctx: Ctx, stt):
         @rule(role=st.sampled_from(["create", "recv"]), kind=st.sampled_from(["plain", "plain", "seq", "seq1"]), n=st.integers(1, 3), bells=st.lists(st.integers(0, 3), min_size=3, max_size=3), minfid=st.integers(0, 5))
         def epr(self, role, kind, n, bells, minfid):
             if kind == "seq" and KF_SEQ in open_keys:
+                # the finding says: the handles of a sequential request stay active. Everything else about such a request is still
+                # checked (it executes without allocation faults, whatever the number of pairs), in one step with its flush
                 stt.excluded[KF_SEQ] += 1
-                kind = "plain"
+                self.r.apply(["seq_atomic", role, n, bells[:n]])
+                return
             need = 1 if kind in ("seq", "seq1") else n
             if kind == "seq1":
                 n = 1
@@ -299,11 +347,37 @@ def make_machine(ctx: Ctx, stt):
                 return
             self.r.apply(["epr", role, kind, n, bells[:n], minfid == 0 and kind == "plain"])
 
-        @precondition(lambda self: self.r is not None and self.r.room() >= 1 and KF_CTX not in open_keys)
-        @rule(role=st.sampled_from(["create", "recv"]), n=st.integers(1, 3))
-        def eprctx(self, role, n):
+        @precondition(lambda self: self.r is not None and self.r.room() >= 1)
+        @rule(role=st.sampled_from(["create", "recv"]), n=st.integers(1, 3), bells=st.lists(st.integers(0, 3), min_size=3, max_size=3))
+        def eprctx(self, role, n, bells):
             n = min(n, self.r.room())
+            if KF_CTX in open_keys:
+                stt.excluded[KF_CTX] += 1
+                if self.r.config["hardware"] == "nv":
+                    n = 1  # >= 2 pairs in a context never complete on this kind of device (same cause as C10's recv_rsp finding)
+                self.r.apply(["ctx_atomic", role, n, bells[:n]])
+                return
             self.r.apply(["eprctx", role, n])
+
+        @precondition(lambda self: self.r is not None and len(self.r.handles) >= 1 and not self.r.info.get("overflow"))
+        @rule(h=st.integers(0, 7))
+        def meas_overflow(self, h):
+            self.r.apply(["flush"])
+            self.r.apply(["meas_overflow", h])
+
+        @precondition(lambda self: self.r is not None and self.r.config["hardware"] == "nv" and self.r.room() >= 2 and not self.r.handles)
+        @rule(role=st.sampled_from(["create", "recv"]), b1=st.integers(0, 3), b2=st.integers(0, 3), second=st.booleans())
+        def born_dies_then_pairs(self, role, b1, b2, second):
+            """one subroutine: a local qubit lives and dies in id 0, a pair arrives there, something evicts it"""
+            self.r.apply(["new"])
+            self.r.apply(["meas", 0, False])
+            self.r.apply(["epr", role, "plain", 1, [b1], False])
+            if second and self.r.room() >= 1:
+                self.r.apply(["epr", role, "plain", 1, [b2], False])
+            else:
+                self.r.apply(["new"])
+                self.r.apply(["meas", len(self.r.handles) - 1, False])
+            self.r.apply(["flush"])
 
         @precondition(lambda self: self.r is not None)
         @rule()
